@@ -182,6 +182,14 @@ def readTableLineAUTOUGH2 (line : Str) (start : Option Int) : Except Exc (List F
 /-- a row key: one name, or a tuple of names -/
 abbrev Key := List Str
 
+/-- `len(key)` / `key[::-1]` for a key that is a Python string (one name) or a tuple of names -/
+def pyLenKey : Key → Nat
+  | [s] => s.length
+  | k => k.length
+def pyRevKey : Key → Key
+  | [s] => [s.reverse]
+  | k => k.reverse
+
 /-- `listingtable.key_from_line(line)` -/
 def keyFromLine (line : Str) (keypos : List Int) : Except Exc Key :=
   keypos.mapM (fun p => fixBlockname (sliceI line p (p + 5)))
@@ -230,13 +238,16 @@ structure RowView where
   cells : List (Str × FVal)
   deriving DecidableEq, Inhabited
 
+/-- `row[col]`: `dict(zip(names, values))` keeps, for a repeated name, the value of its last occurrence -/
 def RowView.get (r : RowView) (col : Str) : Option FVal :=
-  (r.cells.reverse.find? (·.1 = col)).map (·.2)
+  match colIdx (r.cells.map (·.1)) col with
+  | some k => r.cells[k]?.map (·.2)
+  | none => none
 
 def Table.rowView (t : Table) (i : Nat) (rev : Bool) : RowView :=
   let vals := (t.data[i]?.getD #[]).toList
   let key := t.rows[i]?.getD []
-  if rev then ⟨key.reverse, t.cols.zip (vals.map negF)⟩ else ⟨key, t.cols.zip vals⟩
+  if rev then ⟨pyRevKey key, t.cols.zip (vals.map negF)⟩ else ⟨key, t.cols.zip vals⟩
 
 /-- `table[i]` for an integer `i` (negative wraps; `IndexError` outside) -/
 def Table.getByIndex (t : Table) (i : Int) : Except Exc RowView :=
@@ -254,8 +265,8 @@ def Table.getByName (t : Table) (key : Key) : Option RowView :=
   match lastIdx t.rows key with
   | some i => some (t.rowView i false)
   | none =>
-    if key.length > 1 && t.allowRev then
-      match lastIdx t.rows key.reverse with
+    if pyLenKey key > 1 && t.allowRev then
+      match lastIdx t.rows (pyRevKey key) with
       | some i => some (t.rowView i true)
       | none => none
     else none
